@@ -43,7 +43,10 @@ func cntH(q *Query, cur Map, o *FunctionOptions, args []any) (any, error) {
 // returns; ONCE runs once; under every (preemption-bounded) schedule.
 func H_C14_strategies() {
 	n := verif.Choose("rows", maxRows(2, 3)+1)
-	form := verif.Choose("form", 4)
+	form := verif.Choose("form", 9)
+	if form >= 4 && n > 1+verif.Tier() {
+		verif.Assume(false) // nested forms: one row (two in the thorough tier)
+	}
 	callsF, callsG, callsH, doneF, doneG = 0, 0, 0, 0, 0
 	RegisterFunction("vf", cntF)
 	RegisterFunction("vg", cntG)
@@ -62,6 +65,16 @@ func H_C14_strategies() {
 		sql = "SELECT a, ONCE.vh(a) AS o FROM t"
 	case 3:
 		sql = "SELECT u.a AS a, u.v AS v FROM (SELECT a, ASYNC.vf(a) AS v FROM t) u"
+	case 4:
+		sql = "SELECT a, (SELECT SPINASYNC.vg(1) FROM dual) AS s FROM t"
+	case 5:
+		sql = "SELECT u.a AS a FROM (SELECT a, SPINASYNC.vg(a) FROM t) u"
+	case 6:
+		sql = "SELECT a FROM t WHERE EXISTS (SELECT SPINASYNC.vg(1) FROM `<-t`)"
+	case 7:
+		sql = "SELECT a, (SELECT ASYNC.vf(1) AS w FROM dual) AS s FROM t"
+	case 8:
+		sql = "WITH c AS (SELECT a, SPINASYNC.vg(a) FROM t) SELECT a FROM c"
 	}
 	got, ok := runQuery(doc, sql)
 	if !ok {
@@ -85,6 +98,19 @@ func H_C14_strategies() {
 			want = append(want, Map{"a": r["a"]})
 		}
 		verif.Assert(verif.Eq(got, want), "spin-adds-no-column")
+	case 4, 5, 8:
+		// every SPINASYNC call inside a subquery / derived table / CTE has
+		// completed when Exec returns
+		verif.Assert(callsG == n && doneG == n, "nested-spinasync-completed")
+	case 6:
+		verif.Assert(doneG == callsG, "nested-spinasync-completed")
+	case 7:
+		verif.Assert(callsF == n && doneF == n, "nested-async-completed")
+		var want []any
+		for _, r := range rows {
+			want = append(want, Map{"a": r["a"], "s": Map{"w": float64(2)}})
+		}
+		verif.Assert(verif.Eq(got, want), "async-equals-sync")
 	case 2:
 		want := []any{}
 		for _, r := range rows {
